@@ -72,6 +72,10 @@ def run(ctx: Ctx) -> None:
                         "link (the directory holding the entries of longer paths is not a path)")
     n19 = S.reads_after_presence(ctx, v, "C08.R19")
     rep.floor("C08.R19", n19, 4)
+    rep.rule("C08.R20", "a committed path resolves whatever other paths are committed before or after: the entry of a path does not take the name of a directory that the entry of a "
+                        "longer path needs (the dictionary model holds '/a' and '/a/b' together)")
+    n20 = S.entries_apart_from_directories(ctx, v, "C08.R20")
+    rep.floor("C08.R20", n20, 1)
     rep.rule("C08.R15", "a committed path resolves to the key it was committed with, whatever else is asked in the same call: fetch_paths of every store files each requested path in "
                         "one mapping that lives across the loop (as C19.R14)")
     n15 = S.every_path_answered(ctx, "C08.R15")
